@@ -13,10 +13,14 @@ def isHandler : PyStmt → Bool
 
 def noHandlers (ss : List PyStmt) : Bool := ss.all fun s => !isHandler s
 
-/-- lambda-style parameters (no annotations) -/
+def isAnyVarParam : PyExpr → Bool
+  | .param _ _ none => true
+  | _ => false
+
+/-- the parameters of a `def`: names with optional annotation and default -/
 def ParamsOK (po ar : List PyExpr) (va : Option PyExpr) (ko : List PyExpr) (ka : Option PyExpr) : Prop :=
-  WFL po ∧ WFL ar ∧ WFO va ∧ WFL ko ∧ WFO ka ∧ po.all isPlainParam = true ∧ ar.all isPlainParam = true
-    ∧ ko.all isPlainParam = true ∧ (∀ v, va = some v → isVarParam v = true) ∧ (∀ v, ka = some v → isVarParam v = true)
+  WFL po ∧ WFL ar ∧ WFO va ∧ WFL ko ∧ WFO ka ∧ po.all isParam = true ∧ ar.all isParam = true
+    ∧ ko.all isParam = true ∧ (∀ v, va = some v → isAnyVarParam v = true) ∧ (∀ v, ka = some v → isAnyVarParam v = true)
 
 /-! ### dotted names -/
 
